@@ -610,7 +610,7 @@ class PatternV:
         self.pattern = pattern
 
 
-BUILTINS = {"str", "int", "len", "isinstance", "bool", "list", "tuple", "enumerate", "zip", "all", "any", "float", "repr", "type", "dict", "set", "range", "sorted", "min", "max"}
+BUILTINS = {"map", "filter", "str", "int", "len", "isinstance", "bool", "list", "tuple", "enumerate", "zip", "all", "any", "float", "repr", "type", "dict", "set", "range", "sorted", "min", "max"}
 
 
 def decorators(fn):
@@ -1180,7 +1180,8 @@ class Ev:
         if isinstance(e, ast.Call):
             return self.call(e, env, mod)
         if isinstance(e, ast.Lambda):
-            raise AnalysisError("lambda at line %d is not modelled" % e.lineno)
+            fn = ast.FunctionDef(name="<lambda>", args=e.args, body=[ast.Return(value=e.body, lineno=e.lineno, col_offset=0)], decorator_list=[], lineno=e.lineno, col_offset=0)
+            return FuncV(fn, env=env, mod=mod)
         raise AnalysisError("expression %s at line %d is not modelled" % (type(e).__name__, e.lineno))
 
     def call(self, e, env, mod):
@@ -1279,6 +1280,19 @@ class Ev:
             return all(ts) if name == "all" else any(ts)
         if name == "isinstance":
             return self.isinstance(args[0], args[1], e)
+        if name in ("map", "filter"):
+            f = args[0]
+            items = [list(t) for t in zip(*[self.iterate(a, e) for a in args[1:]])]
+            if name == "map":
+                return ListV([self.apply(f, it, {}, e, None) for it in items])
+            return ListV([it[0] for it in items if (self.truth(it[0], e) if isinstance(f, NoneT) else self.truth(self.apply(f, it, {}, e, None), e))])
+        if name == "sorted" and not kwargs:
+            items = self.iterate(args[0], e)
+            if all(isinstance(x, int) and not isinstance(x, bool) for x in items):
+                return ListV(sorted(items))
+            if all(isinstance(x, Str) and x.is_lit() for x in items):
+                return ListV([Str.lit(t) for t in sorted(x.text() for x in items)])
+            raise Undecided("sorted(%r)" % (items,))
         if name == "dict":
             return DictV(kwargs)
         raise AnalysisError("builtin %s at line %d is not modelled" % (name, e.lineno))
